@@ -453,6 +453,17 @@ class E3(object):
             if a0[0] == 'ref':
                 return True
             return a0[0] == 'adt'
+        # small loop-free free functions of the caller's own module without obligation sites of their own contract
+        # (predicate helpers such as `starts_option(bytes)`): their facts are needed where they are used
+        if body.kind == 'Fn' and bt is None and body.npath not in PRECONDITIONS and not cfg_of(body)['back'] \
+                and len(body.blocks) <= 25 and hasattr(ci.fn, 'npath'):
+            def module_of(np_):
+                np_ = np_.split('::{closure')[0]
+                if np_.startswith('<'):
+                    return np_[1:].split(' as ')[0].rsplit('::', 1)[0].rsplit('::', 1)[0] if ' as ' in np_ else ''
+                return np_.rsplit('::', 2)[0] if np_.count('::') >= 2 else np_.rsplit('::', 1)[0]
+            cm, bm = module_of(ci.fn.npath), body.npath.rsplit('::', 1)[0]
+            return bool(bm) and (cm == bm or ci.fn.npath.startswith(bm + '::') or ('<' + bm + '::') in ci.fn.npath)
         return False
 
     def sym_of_type(self, w, ty, ci, tag):
@@ -1500,6 +1511,29 @@ def run_(ctx, res):
             lemma = (False, str(e), 'token::Tokens::new')
         tok_fn = lemma[2]
         res.extra['slack_lemma_%s' % cfg] = "%s: %s" % ('holds' if lemma[0] else 'FAILS', lemma[1][:300])
+        # Assumed entries are keyed by function name.  When a function was renamed its entry would be orphaned and the
+        # site reported: an orphaned entry (its function no longer exists) may stand for a not-otherwise-assumed site of the
+        # same type, kind and detail, provided orphans and such sites pair up one to one.
+        def group(k):
+            fn_, kind_, det_ = k.split('|')[:3]
+            owner = fn_.rsplit('::', 1)[0] if '::' in fn_ else fn_
+            return owner.split('::{closure')[0], kind_, det_
+        inv_fns = {k.split('|')[0] for k in inv}
+        orphans = {}
+        for k_, e_ in assumed.items():
+            if k_.split('|')[0] not in inv_fns:
+                orphans.setdefault(group(k_), []).append(e_)
+        rename_ok = {}
+
+        def verdict_of(key):
+            s_ = sites.get(key)
+            vs_ = s_.verdicts if s_ else set()
+            return 'undischarged' if ('undischarged' in vs_ or 'reached' in vs_) else ('discharged' if vs_ else 'unvisited')
+        for g_, es_ in orphans.items():
+            cands = [k for k in sorted(inv) if group(k) == g_ and k not in assumed and verdict_of(k) == 'undischarged']
+            if len(cands) == len(es_):
+                for k, e_ in zip(cands, es_):
+                    rename_ok[k] = e_
         for key in sorted(inv):
             s = sites.get(key)
             fnp = key.split('|')[0]
@@ -1519,9 +1553,10 @@ def run_(ctx, res):
                 # the tokenizer's output cursor: discharged by the slack lemma proved on its extracted transducer (C07)
                 verdict = 'discharged'
                 res.extra.setdefault('by_slack_lemma_%s' % cfg, []).append(key)
-            if verdict != 'discharged' and key in assumed and condition_holds(lib, assumed[key]):
+            entry = assumed.get(key) or rename_ok.get(key)
+            if verdict != 'discharged' and entry is not None and condition_holds(lib, entry):
                 verdicts['assumed'] += 1
-                res.assumed.append("%s — %s" % (key, assumed[key]['invariant']))
+                res.assumed.append("%s — %s%s" % (key, entry['invariant'], '' if key in assumed else ' [entry %s, function renamed]' % entry['site']))
                 res.obligations += 1
                 res.evaluations += 1
                 res.distinct.add(cfg + '|' + key)
